@@ -36,6 +36,8 @@ type envOpts struct {
 	Gate      func(name string)
 	FailWrite int
 	Partial   bool
+	KeepOpen  bool
+	FailOnce  bool
 }
 
 func newSessEnv(w *tr.Writer, tid int, o envOpts) (*sessEnv, error) {
@@ -111,6 +113,8 @@ func newSessEnv(w *tr.Writer, tid int, o envOpts) (*sessEnv, error) {
 	run.bytesRead = run.bytesWritten
 	run.failAt = o.FailWrite
 	run.partial = o.Partial
+	run.keepOpen = o.KeepOpen
+	run.failOnce = o.FailOnce
 	run.armed = true
 	run.mu.Unlock()
 	if !run.waitFor(3*time.Second, func(c map[string]int) bool { return c["recv.wait"] >= 1 }) {
@@ -179,4 +183,39 @@ func (env *sessEnv) close() {
 		os.Remove(env.logf.Name())
 	}
 	curRun.Store(nil)
+}
+
+// reconnect establishes another session with the same client object (Connect again) on a new
+// server-side connection; fault counters are re-armed.
+func (env *sessEnv) reconnect(o envOpts) error {
+	type negOut struct {
+		conn *srv.Conn
+		err  error
+	}
+	negc := make(chan negOut, 1)
+	go func() {
+		conn, err := env.server.Accept(5 * time.Second)
+		if err != nil {
+			negc <- negOut{nil, err}
+			return
+		}
+		_, err = conn.Negotiate(srv.NegotiateOpts{SM: o.SM, SMID: sessSMID + "b", Resume: true, StreamID: "sid-2", Jid: "test@localhost/res"}, 5*time.Second)
+		negc <- negOut{conn, err}
+	}()
+	env.run.mu.Lock()
+	env.run.armed, env.run.faulted, env.run.writes = false, false, 0
+	env.run.mu.Unlock()
+	cerr := env.client.Connect()
+	neg := <-negc
+	if neg.err != nil || cerr != nil {
+		return fmt.Errorf("precondition: second session could not be established (client: %v, server: %v)", cerr, neg.err)
+	}
+	env.conn = neg.conn
+	env.rdDone = make(chan struct{})
+	env.run.mu.Lock()
+	env.run.bytesRead = env.run.bytesWritten
+	env.run.failAt, env.run.partial, env.run.keepOpen, env.run.failOnce = o.FailWrite, o.Partial, o.KeepOpen, o.FailOnce
+	env.run.armed = true
+	env.run.mu.Unlock()
+	return nil
 }
